@@ -439,12 +439,21 @@ class cleanup_functools_wrapper(object):
         else:
             raise NotImplementedError('This context manager is not reentrant')
         self.saved_attrs = {}
-        for attr in self.attrs:
-            try:
-                self.saved_attrs[attr] = getattr(self.func, attr)
-                delattr(self.func, attr)
-            except AttributeError:
-                pass
+        try:
+            own_attrs = vars(self.func)
+        except TypeError:
+            return
+        try:
+            for attr in self.attrs:
+                try:
+                    val = own_attrs[attr]
+                    delattr(self.func, attr)
+                except (KeyError, AttributeError, TypeError):
+                    continue
+                self.saved_attrs[attr] = val
+        except BaseException:
+            self.__exit__()
+            raise
 
     def __exit__(self, *exc):
         for attr, val in self.saved_attrs.items():
